@@ -209,7 +209,7 @@ Proof.
   unfold startstop. destruct (_ || _); [destruct (0 <? _)|]; try apply K_refl; apply K_quiet; try reflexivity; exists []; reflexivity.
 Qed.
 Lemma K_uptime G C s : K G C s (fst (uptime_msec s)).
-Proof. unfold uptime_msec, uptime_usec. cbn [fst]. apply K_quiet; try reflexivity. exists []; reflexivity. Qed.
+Proof. unfold uptime_msec, uptime_usec. cbn [fst]. apply K_quiet; try reflexivity. eexists [_]; reflexivity. Qed.
 Lemma K_emit G C o s : K G C s (emit o s).
 Proof. apply K_quiet; try reflexivity. exists [o]. reflexivity. Qed.
 Lemma K_set_slot (G C : Z -> Prop) s n y :
@@ -332,6 +332,8 @@ Qed.
 End Walk.
 
 (* ---------- the restore loop ---------- *)
+Section W.
+Context {wr : Wraps}.
 Definition restoring (r : relay) : bool := hasf (r_flags r) FLAG_RESTORE_FORCE || hasf (r_flags r) FLAG_RESTORE.
 
 (* what the restart owes relay r (index a in the board table); b = the state the loop started from, add = the trace
@@ -461,7 +463,7 @@ Qed.
 
 Lemma restore_step b pre r l t t' :
   c_relays c = pre ++ r :: l -> FI b pre (r :: l) t ->
-  t' = restore_relay e c t (Z.of_nat (length pre), r) -> NW t' -> FI b (pre ++ [r]) l t'.
+  t' = restore_relay e c t (Z.of_nat (length pre), r) -> NWw t' -> FI b (pre ++ [r]) l t'.
 Proof.
   intros Ers F Et' N. pose proof F as [Gt Fc Ft Fn _ Fa Fr].
   set (k0 := Z.of_nat (length pre)) in *.
@@ -484,14 +486,14 @@ Proof.
     { rewrite Es1. apply K_sdt; [lia|reflexivity|]. intros a0 r0 E. rewrite FC0 in E. injection E as _ <-. reflexivity. }
     assert (K2 : K c (eq (r_gpio r)) (eq (r_chan r)) s1 t') by (rewrite Et'; apply K_relay_hi; reflexivity).
     assert (P : passive s1 t') by (rewrite Et'; apply passive_relay_hi).
-    assert (N1 : NW s1) by (eapply NW_passive; eauto).
+    assert (N1 : NWw s1) by (eapply NW_passive; eauto).
     pose proof (s32_range (getz (ram_t2 t) (r_chan r))) as SR.
     destruct (set_duration_timer_spec e c _ _ _ _ t s1 Es1 W Gt Hc ltac:(lia) N1) as (_ & F1 & Nw1 & _ & _).
     assert (Nw' : now t' = now s1 + OP) by (rewrite Et'; apply now_relay_hi).
     pose proof (fr_now _ _ F1) as Nw0.
     apply (step_common b pre r l t t' Ers F (K_trans c _ _ _ _ _ K1 K2) Gt'); [lia|].
     intros add' Oa' _ v T Hv.
-    pose proof (restore_one_thm e c t k0 r W Gt Hr FC0 FG0 Rr) as RO. cbn zeta in RO. rewrite <- Et0 in RO.
+    pose proof (restore_one_w e c t k0 r W Gt Hr FC0 FG0 Rr) as RO. cbn zeta in RO. rewrite <- Et0 in RO.
     destruct (Fr k0 r (or_introl eq_refl)) as [R1 R2]. rewrite R1, R2 in RO. fold v T in RO.
     destruct (RO Hv N) as [Rp Rt]. split; [left; exact Rp|].
     intros HT Hcase.
@@ -509,13 +511,13 @@ Qed.
 
 Lemma restore_fold b : forall l pre t t',
   c_relays c = pre ++ l -> FI b pre l t ->
-  t' = fold_left (restore_relay e c) (enum (Z.of_nat (length pre)) l) t -> NW t' -> FI b (pre ++ l) [] t'.
+  t' = fold_left (restore_relay e c) (enum (Z.of_nat (length pre)) l) t -> NWw t' -> FI b (pre ++ l) [] t'.
 Proof.
   induction l as [|r l IH]; intros pre t t' Ers F Et' N.
   - cbn in Et'. subst t'. rewrite app_nil_r. exact F.
   - cbn [enum fold_left] in Et'.
     remember (restore_relay e c t (Z.of_nat (length pre), r)) as t1 eqn:Et1.
-    assert (N1 : NW t1) by (eapply NW_frame; [|exact N]; rewrite Et'; apply fold_restore_frame).
+    assert (N1 : NWw t1) by (eapply NW_frame; [|exact N]; rewrite Et'; apply fold_restore_frame).
     pose proof (restore_step b pre r l t t1 Ers F Et1 N1) as F1.
     replace (pre ++ r :: l) with ((pre ++ [r]) ++ l) by (rewrite <- app_assoc; reflexivity).
     apply (IH (pre ++ [r]) t1 t'); [rewrite <- app_assoc; exact Ers|exact F1| |exact N].
@@ -527,11 +529,11 @@ End Loop.
 (* channel_flags known at init: zero when the board registers them later (lateflags) *)
 Definition chfl_init (c : cfg) (r : relay) : Z := if c_lateflags c then 0 else r_chfl r.
 
-Theorem restore_all_thm e c s :
+Theorem restore_all_w e c s :
   wf_cfg c -> NoDup (map r_gpio (c_relays c)) -> NoDup (map r_chan (c_relays c)) -> (length (c_relays c) <= 8)%nat ->
   TrO s -> 0 <= cnt0 s -> tb s <= now s ->
   let s' := boot e c s in
-  NW s' ->
+  NWw s' ->
   exists add, outs s' = add ++ outs s /\
   forall a r, In (a, r) (enum 0 (c_relays c)) -> restoring r = true ->
     let v := getz (fl_relay s) a in
@@ -573,9 +575,9 @@ Proof.
     - apply TO.
     - intros x Hx Ax. rewrite a1 in Hx. destruct (free_inactive x Hx). congruence. }
   remember (fst (uptime_usec s6)) as s7 eqn:Es7.
-  assert (F67 : frame s6 s7) by (subst s7; unfold uptime_usec; cbn [fst]; constructor; cbn; try reflexivity; try lia; exists []; auto).
+  assert (F67 : frame s6 s7) by (subst s7; apply frame_uptime_usec).
   assert (F7' : frame s7 (set_seqc (seqc s7 + 1) s7)) by (constructor; cbn; try reflexivity; try lia; exists []; auto).
-  assert (N6 : NW s6) by (eapply NW_frame; [|eapply NW_frame; eauto]; auto).
+  assert (N6 : NWw s6) by (eapply NW_frame; [|eapply NW_frame; eauto]; auto).
   assert (FI0 : FI s5 [] (c_relays c) s5).
   { constructor; auto.
     - cbn. lia.
@@ -583,17 +585,44 @@ Proof.
     - intros x Hx Ax. rewrite a1 in Hx. destruct (free_inactive x Hx). congruence. }
   pose proof (restore_fold e c W NDg NDc Hlen s5 (c_relays c) [] s5 s6 eq_refl FI0 Es6 N6) as [_ _ _ _ (add & Oa & Dn) _ _].
   cbn [app] in Dn.
-  assert (E1 : outs (set_seqc (seqc s7 + 1) s7) = outs s6) by (subst s7; reflexivity).
+  destruct (fr_outs _ _ F67) as (ad7 & E7).
+  assert (E1 : outs (set_seqc (seqc s7 + 1) s7) = ad7 ++ outs s6) by (rewrite <- E7; reflexivity).
   assert (E2 : forall p, pin (set_seqc (seqc s7 + 1) s7) p = pin s6 p) by (intros p; subst s7; reflexivity).
-  exists add. split; [rewrite E1, Oa, a9; reflexivity|].
+  exists (ad7 ++ add). split; [rewrite E1, Oa, a9, app_assoc; reflexivity|].
   intros a r Hin Rr. set (v := getz (fl_relay s) a). set (T := getz (fl_t2 s) (r_chan r)). intros Hv. specialize (Dn a r Hin). unfold Done in Dn. specialize (Dn Rr). cbn zeta in Dn. rewrite b1, b2, a6, a10 in Dn.
-  destruct (Dn Hv) as [Dp Dt]. fold v T in Dp, Dt. split; [rewrite E2; exact Dp|].
-  intros HT Hcase. rewrite E1. apply Dt; [exact HT|].
+  destruct (Dn Hv) as [Dp Dt]. fold v T in Dp, Dt.
+  split; [rewrite E2; destruct Dp as [Dp|Dp]; [left; exact Dp|right; apply newfin_app; right; exact Dp]|].
+  intros HT Hcase. rewrite E1.
+  cut (exists t0 : Z, now s <= t0 <= now s + (a + 1) * (9 * OP) /\ In (GArm t0 (r_chan r) T (1 - v)) (outs s6)).
+  { intros (t0 & Ht0 & Hi). exists t0. split; [exact Ht0|]. apply in_or_app. right. exact Hi. }
+  apply Dt; [exact HT|].
   destruct Hcase as [Hc|[Hc1 Hc2]]; [left; exact Hc|right]. split; [exact Hc1|].
   rewrite b3. unfold chfl_init in Hc2. pose proof (enum_range _ _ _ _ Hin) as [Ra _].
   destruct (c_lateflags c).
   - exfalso. unfold hasf in Hc2. rewrite Z.land_0_l in Hc2. discriminate.
   - pose proof (getz_map_enum r_chfl (c_relays c) 0 a r Hin ltac:(lia)) as E. rewrite Z.sub_0_r in E. rewrite E. exact Hc2.
+Qed.
+
+End W.
+
+(* no wrap at all (WB = 0): the statement as before *)
+Theorem restore_all_thm e c s :
+  wf_cfg c -> NoDup (map r_gpio (c_relays c)) -> NoDup (map r_chan (c_relays c)) -> (length (c_relays c) <= 8)%nat ->
+  TrO s -> 0 <= cnt0 s -> tb s <= now s ->
+  let s' := boot e c s in
+  NW s' ->
+  exists add, outs s' = add ++ outs s /\
+  forall a r, In (a, r) (enum 0 (c_relays c)) -> restoring r = true ->
+    let v := getz (fl_relay s) a in
+    let T := getz (fl_t2 s) (r_chan r) in
+    v = 0 \/ v = 1 ->
+    (pin s' (r_gpio r) = xorb (v =? 1) (hasf (r_flags r) FLAG_LO_LEVEL) \/ newfin (r_chan r) add) /\
+    (0 < T < 2147483648 ->
+     v = 1 \/ (getz (time2 s) (r_chan r) = 0 /\ hasf (chfl_init c r) CHFLAG_COUNTDOWN = true) ->
+     exists t0, now s <= t0 <= now s + (a + 1) * (9 * OP) /\ In (GArm t0 (r_chan r) T (1 - v)) (outs s')).
+Proof.
+  intros W NDg NDc Hlen TO C0 Ct s' N.
+  exact (@restore_all_w nowrap e c s W NDg NDc Hlen TO C0 Ct (NW_NWw _ N)).
 Qed.
 
 (* ---------- the hypotheses are satisfiable, the conclusion is not vacuous ---------- *)
@@ -615,7 +644,7 @@ Proof.
   split; [exact Wc|].
   split; [repeat constructor; cbn; intuition discriminate|]. split; [repeat constructor; cbn; intuition discriminate|].
   split; [cbn; lia|]. split.
-  - assert (NR : NWrun true two_cfg (start true two_cfg) two_evs) by (apply nwrunb_ok; vm_compute; reflexivity).
+  - assert (NR : @NWwrun nowrap true two_cfg (start true two_cfg) two_evs) by (apply NWrun_NWwrun; apply nwrunb_ok; vm_compute; reflexivity).
     assert (G : Good (run_from true two_cfg (start true two_cfg) two_evs)).
     { apply run_good; [exact Wc|apply wf_evsb_ok; vm_compute; reflexivity| |exact NR].
       apply start_good; [exact Wc|]. apply (NR 0%nat). }
